@@ -17,7 +17,7 @@ CLAIMED = {
     'C04': ('Theorems C04_success_trace / C04_documented_order / C04_views / C04_event_level_first (Rocq); K2 compares complete hook traces '
             'with views (state, slots, context id, payload id) on compiled sync and async machines.',
             'proof over the model + trace correspondence'),
-    'C05': ('Theorems C05_refused_typed_call_returns_the_machine_intact / C05_refused_handle_leaves_wrapper_unchanged / '
+    'C05': ('Theorems C05_refused_typed_call_returns_the_machine_intact / C05_retry_after_refusal_succeeds / C05_refused_handle_leaves_wrapper_unchanged / '
             'C05_refusal_is_a_noop_anywhere_in_a_history (Rocq); K2 inserts refusals at every position of histories with modified data.',
             'proof over the model + history correspondence'),
     'C06': ('Theorems C06_abort_before_vetoes / C06_abort_after_panics / C06_after_stage_only_after_success / '
@@ -40,10 +40,10 @@ CLAIMED = {
             'set/mutate/read/transition sequences with several data states per machine.',
             'proof over the model + accessor sequences on compiled machines'),
     'C16': ('Theorems C16_hooks_see_the_machines_context_and_the_callers_payload / C16_transition_carries_the_context / '
-            'C16_context_conserved_by_every_operation (Rocq); K2 uses drop-counting context and payload values with identities.',
+            'C16_context_conserved_by_every_operation / C16_context_dropped_exactly_once_over_a_history (Rocq); K2 uses drop-counting context and payload values with identities.',
             'proof over the model + drop accounting on compiled machines'),
     'C02': ('Theorems C02_method_exists_iff_transition_applies / C02_methods_are_the_edges_of_the_event / C02_new_only_on_initial_state / '
-            'C02_infallible_accessors_on_own_state_only (Rocq) about the inherent methods each generated state impl carries. PARTIAL: '
+            'C02_infallible_accessors_on_own_state_only / C02_no_method_through_a_superstate_bound (Rocq) about the inherent methods each generated state impl carries. PARTIAL: '
             '"can be called" is rustc method resolution -- decided by K3: per machine one positive or negative probe per (leaf, event), '
             'per state a `new` probe, per (state, data state) an accessor probe; rustc\'s error lines must equal the model\'s. K1 compares '
             'the generated signatures with the model for every corpus definition.',
@@ -72,11 +72,16 @@ CLAIMED = {
             'no_std acceptance, zero-sized markers, MachineState bounds and size_of are rustc facts -- decided by K3: every corpus machine built '
             'in a #![no_std] crate without alloc, with const size assertions and bound probes.',
             'proof over the model (emitted items) + no_std build with const assertions'),
-    'C18': ('Theorems C18_success_does_not_depend_on_hook_names / C18_hygienic_characterisation / C18_refuted_by_generic_parameter_capture '
-            '(Rocq). PARTIAL: which shadowings rustc rejects, and twin behaviour of renamed definitions, are decided by K3: every role x an '
-            'adversarial identifier pool is compiled; every variant that compiles is run against the model of the renamed definition. The '
-            'generic-parameter capture is a recorded known finding.',
-            'proof over the model (hygiene, refutation witness) + adversarial renaming through rustc'),
+    'C18': ('Theorems C18_front_end_is_natural_in_identifiers (front (rn d) = rn (front d) for every injective renaming that respects '
+            'snake_case-ness) / C18_renamed_definition_is_the_relabelled_twin (codegen commutes with the renaming, derived names re-derived) / '
+            'C18_renamed_definition_behaves_like_its_twin (dispatch, typed methods, construction, conversion, accessors) / '
+            'C18_method_run_is_natural_in_identifiers / C18_dispatch_is_natural_in_identifiers / C18_success_does_not_depend_on_hook_names / '
+            'C18_hygienic_characterisation / C18_refuted_by_generic_parameter_capture (Rocq). The twin theorems assume injective relabellings '
+            'of the derived namespaces compatible with the renaming (absent exactly on the name-collision class). Which shadowings rustc '
+            'rejects and the capture by the generated type parameters are rustc facts decided by K3: every role x an adversarial identifier '
+            'pool is compiled; every variant that compiles is run against the model of the renamed definition. The generic-parameter '
+            'capture is a recorded known finding.',
+            'proof over the model (equivariance of front end, code generator and run-time semantics; refutation witness) + adversarial renaming through rustc'),
     'C19': ('Theorems C19_outcomes_of_handle / C19_poisoned_wrapper_is_unavailable / C19_completed_dispatch_stays_in_a_declared_state '
             '(Rocq, all budgets); K2 panics every hook and drops the async future at every suspension point, then tries every public op.',
             'proof over the model + fault enumeration on compiled machines'),
